@@ -68,7 +68,7 @@ CHECKS["C08"] = {
          "WriteDerived, PositionImmutable, AckPrefix).",
  "note": DP_NOTE + BATCH_NOTE, "technique": "TLC-enumerated case space replayed on the real engine + TLC trace validation"}
 CHECKS["C09"] = {
- "text": "Both real engines are fed one ill-formed plugin reply per scenario (28 shape classes: processors returning "
+ "text": "Both real engines are fed one ill-formed plugin reply per scenario (29 shape classes, among them a well-formed but early one - the answer for a whole batch reaching the engine before the write call that completed the batch has returned: processors returning "
          "fewer/zero/more results, unknown types, changed/empty positions; destinations answering with empty, surplus, "
          "out-of-order or wrong-position acks or a broken stream; sources with empty/duplicate positions or failing "
          "reads; Open/Teardown errors of every plugin kind) in child processes; TLC validates every trace: NoPanic, NoHang "
